@@ -68,6 +68,12 @@ LEAVES = {
     "KDRandAugmentCustom": ("pil", st.fixed_dictionaries({"num_ops": st.integers(1, 3), "magnitude": st.sampled_from([5, 9]),
                                                           "magnitude_std": st.sampled_from([0.0, 0.5]), "interpolation": st.just("bicubic"),
                                                           "fill_color": st.just([124, 116, 104])})),
+    # family "pair": (image tensor, segmentation mask) -> pair
+    "KDSemsegRandomHorizontalFlip": ("pair", st.fixed_dictionaries({"p": _P})),
+    "KDSemsegRandomResize": ("pair", st.fixed_dictionaries({"base_size": st.sampled_from([[8, 12], [16, 16]]), "ratio": st.sampled_from([[0.5, 2.0], [0.8, 1.2]]),
+                                                             "interpolation": st.sampled_from(["bilinear", "nearest"])})),
+    "KDSemsegRandomResizeOld": ("pair", st.fixed_dictionaries({"base_size": st.sampled_from([[8, 12], [16, 16]]), "ratio": st.sampled_from([[0.5, 2.0], [0.8, 1.2]])})),
+    "KDSemsegRandomCrop": ("pair", st.fixed_dictionaries({"size": st.sampled_from([4, [4, 7], 6]), "max_category_ratio": st.sampled_from([1.0, 0.75, 0.5])})),
     # family "patch": C x L x ph x pw
     "PatchwiseRandomRotation": ("patch", st.just({})),
     "PatchwiseShuffle": ("patch", st.just({})),
@@ -79,6 +85,7 @@ _MODULES = {
     "KDRoll": "kappadata.transforms.audio.kd_roll",
     "KDMagnitudeJitter": "kappadata.transforms.audio.kd_magnitude_jitter",
     "KDSpecAugment": "kappadata.transforms.audio.kd_spec_augment",
+    "KDSemsegRandomResizeOld": "kappadata.transforms.semseg.kd_semseg_random_resize_old",
 }
 
 PIPELINES = {
@@ -171,6 +178,9 @@ def leaf_spec(name):
 
 
 IMG_LEAVES = [n for n, (f, _) in LEAVES.items() if f in ("img", "img3")]
+# tensor transforms that are documented (torchvision functional ops) to accept PIL images as well
+PIL_OK = ["KDColorJitter", "KDRandomColorJitter", "KDRandomGrayscale", "KDRandomHorizontalFlip", "KDRandomRotation", "KDRandomCrop",
+          "KDRandomResizedCrop", "KDSimpleRandomCrop", "KDTwoRandomCrop", "KDGaussianBlurTV", "KDRandomGaussianBlurTV"]
 
 
 @st.composite
@@ -212,6 +222,12 @@ def make_input(fam, key, size=None):
         return Image.fromarray(rng.integers(0, 256, size=(h, w, 3), dtype=np.uint8), mode="RGB")
     if fam == "patch":
         return torch.from_numpy(rng.random(size=(2, 6, 3, 3), dtype=np.float32))
+    if fam == "pair":
+        h, w = size or (8 + key % 5, 9 + key % 4)
+        return (torch.from_numpy(rng.random(size=(3, h, w), dtype=np.float32)), torch.from_numpy(rng.integers(0, 4, size=(h, w))))
+    if fam == "pil_any":
+        h, w = size or (10 + key % 5, 12 + key % 3)
+        return Image.fromarray(rng.integers(0, 256, size=(h, w, 3), dtype=np.uint8), mode="RGB")
     raise ValueError(fam)
 
 
